@@ -32,6 +32,12 @@ Families (all members visited):
   statics : static string conditions with case-sensitive literals ("s = 'a_b'", "s != 'o''k'", "s IN ('a_b', 'Zz')",
             "s GLOB 'a*'") are items of the deco alphabet, alone, combined and inside _or; their text must be
             part of the statement as written
+  objects : a condition object g = _or(A, B) kept in a variable (A, B over the 16 representative atoms): query 1 uses g
+            inside a bigger _or (first operand, non-first operand, twice in one query, with keywords; 4 partners),
+            query 2 uses g alone again and is judged by g's own meaning
+  interleave: on one fresh SqlMethod and one connection, all(A) advanced k rows (every k), then list / one_or_none /
+            all / an abandoned all with B on the same method and connection, then the outer iterator finished:
+            it must yield exactly its own rows in order (A, B over the representative atoms)
   seq     : two calls in a row on one fresh SqlMethod / SqlMethodT object in freshly reloaded modules
             (16 x 16 representative atoms x 6 method pairs x both placeholder styles)
   illtyped: operator/operand pairs the documentation does not define (outside the property: counted;
@@ -73,7 +79,10 @@ REQUIRED_FEATURES = [
     "form:3-tuple", "form:2-tuple", "form:list", "form:object", "form:keyword", "form:or-empty", "form:or-1",
     "form:or-2", "form:or-keyword", "form:none-arg", "form:static", "form:lower-case-op",
     "form:keyword-underscore-column", "col:qualified", "col:underscore", "seq:two-calls", "val:long-list-1001", "val:long-list-2001", "val:long-list-with-null",
-    "form:static-with-literal",
+    "form:static-with-literal", "objects:or-group-reused", "objects:first", "objects:non-first", "objects:twice",
+    "objects:first+kw", "interleave:inner-list", "interleave:inner-one_or_none", "interleave:inner-all",
+    "interleave:inner-all-abandoned", "interleave:outer-partly-consumed", "interleave:outer-untouched",
+    "interleave:outer-exhausted",
     "select:id", "select:s", "select:n", "select:f", "scalars:-", "scalars:call", "scalars:ctor",
     "scalars:falsy-single-row:list", "scalars:falsy-single-row:all", "scalars:falsy-single-row:one",
     "scalars:falsy-single-row:one_or_none",
@@ -767,7 +776,8 @@ def shards(tier):
     out += [("pairs", lo, min(lo + 5, na)) for lo in range(0, na, 5)]
     nd = len(_item_alphabet(True))
     out += [("deco", k, 24) for k in range(24)]
-    out += [("kw",), ("illtyped",)] + [("seq", k, 4) for k in range(4)] + [("long", k, 16) for k in range(16)]
+    out += [("kw",), ("illtyped",)] + [("seq", k, 8) for k in range(8)] + [("long", k, 16) for k in range(16)] + \
+        [("objects", k, 8) for k in range(8)] + [("interleave", k, 8) for k in range(8)]
     if tier == "thorough":
         out += [("triples", i) for i in range(na)]
         out += [("deco3", k, 8) for k in range(8)]
@@ -950,6 +960,12 @@ def run_shard(shard, tier, seed, acc):
     if kind == "long":
         _long_block(acc, shard[1], shard[2])
         return
+    if kind == "objects":
+        _objects_block(acc, shard[1], shard[2])
+        return
+    if kind == "interleave":
+        _interleave_block(acc, shard[1], shard[2])
+        return
     if kind == "triples":
         a = ATOMS[shard[1]]
         na = len(ATOMS)
@@ -1080,7 +1096,152 @@ def _seq_block(acc, k, step):
             return
 
 
+# ---- condition objects kept in variables and used in several queries ---------------------------------------------
+OBJECT_SHAPES = ["first", "non-first", "twice", "first+kw"]
+
+
+def _atom_arg(item):
+    a, m, b, _lv, _fs = build_item(item)
+    strs = [x for x in b if _text_checkable(x)]
+    return a, m, b, strs
+
+
+def run_objects(case, acc, count=True):
+    """g = _or(A, B) is built once and kept; query 1 uses g inside a bigger _or (as first operand, as non-first
+    operand, twice, with keywords), query 2 uses g alone again: g must still mean A OR B."""
+    from ak.mtd_sql import SqlMethod
+    q = case["objects"]
+    (a, ma, ba, sa), (b, mb, bb, sb), (c, mc, bc, sc) = _atom_arg(q["a"]), _atom_arg(q["b"]), _atom_arg(q["c"])
+    mg, bg, sg = L.or_masks([ma, mb], FULL), ba + bb, sa + sb
+    g = SqlMethod._or(a, b)
+    shape = q["shape"]
+    if shape == "first":
+        args1, masks1, bound1 = [SqlMethod._or(g, c)], [L.or_masks([mg, mc], FULL)], bg + bc
+    elif shape == "non-first":
+        args1, masks1, bound1 = [SqlMethod._or(c, g)], [L.or_masks([mc, mg], FULL)], bc + bg
+    elif shape == "twice":
+        args1, masks1, bound1 = [g, SqlMethod._or(g, c)], [mg, L.or_masks([mg, mc], FULL)], bg + bg + bc
+    else:
+        args1 = [SqlMethod._or(g, c, _d=0)]
+        masks1 = [L.or_masks([mg, mc, L.atom_masks(ROWS, COLIDX["_d"], "=", ["v", 0])], FULL)]
+        bound1 = bg + bc + [0]
+    steps = [("q0", [g], [mg], bg, sg), ("q1", args1, masks1, bound1, sg + sc), ("q2", [g], [mg], bg, sg)]
+    if q.get("skip_q0", 1):
+        steps = steps[1:]
+    report = None
+    for name, args, masks, bound, strs in steps:
+        label, v, _unk = run_built(args, {}, masks, bound, strs, "list", "id", "call", case["conn"], acc)
+        if v is not None:
+            report = (name, v)
+            break
+    if count:
+        acc.case(nontrivial=True, features=["objects:or-group-reused", "objects:" + shape, "conn:" + case["conn"]],
+                 outcome="objects:ok" if report is None else f"violation:{report[0]}:{report[1][0]}")
+    if report is not None:
+        name, (sig, msg, obs, exp) = report
+        what = "condition-object-changed-by-use" if name == "q2" else "condition-object-query-" + name
+        acc.violation(f"C15:{what}:{sig}", case, f"{name} (g = _or(A, B) kept in a variable, shape '{shape}'): " + msg,
+                      obs, exp)
+    return report
+
+
+def _objects_block(acc, k, step):
+    partners = [REPS[i].item("a3") for i in (0, 2, 10, 14)]
+    for a in REPS[k::step]:
+        for b in REPS:
+            for c in partners:
+                for shape in OBJECT_SHAPES:
+                    run_objects({"objects": {"a": a.item("a3"), "b": b.item("a3"), "c": c, "shape": shape},
+                                 "conn": "q" if shape != "twice" else "p"}, acc)
+        if acc.expired():
+            return
+
+
+# ---- a lazy all() iterator partly consumed while the same method object is called again ---------------------------
+INNER_KINDS = ["list", "one_or_none", "all", "all-abandoned"]
+
+
+def run_interleave(case, acc, count=True):
+    """One fresh SqlMethod, one connection: outer = m.all(A) is advanced k rows, then the same method is called on
+    the same connection with B (list / one_or_none / all consumed / all advanced once and dropped), then the outer
+    iterator is finished: it must yield exactly its own rows, in order; the inner result is judged as well."""
+    from ak.mtd_sql import SqlMethod
+    q = case["interleave"]
+    a, ma, _ba, _sa = _atom_arg(q["a"])
+    b, mb, _bb, _sb = _atom_arg(q["b"])
+    exp_a = [ROWS[i][:3] for i in range(NROWS) if ma[0] >> i & 1]
+    exp_b = [ROWS[i][:3] for i in range(NROWS) if mb[0] >> i & 1]
+    log = []
+    conn = _QConn(log) if case["conn"] == "q" else _PConn(log)
+    m = SqlMethod(SELECT, record_name="rec")
+    acc.trans(2)
+    report = None
+    try:
+        outer = m.all(conn, a, _order_by="id")
+        got_a = []
+        for _ in range(q["k"]):
+            got_a.append(tuple(next(outer)))
+        kind = q["inner"]
+        if kind == "list":
+            inner = ("rows", [tuple(r) for r in m.list(conn, b, _order_by="id")])
+        elif kind == "all":
+            inner = ("rows", [tuple(r) for r in m.all(conn, b, _order_by="id")])
+        elif kind == "all-abandoned":
+            it = m.all(conn, b, _order_by="id")
+            first = next(it, None)
+            inner = ("first", None if first is None else tuple(first))
+        else:
+            try:
+                r = m.one_or_none(conn, b)
+                inner = ("none",) if r is None else ("row", tuple(r))
+            except ValueError:
+                inner = ("ValueError",)
+        got_a += [tuple(r) for r in outer]
+    except Exception as e:  # noqa
+        report = ("interleaved-iterator-raises", f"raised {type(e).__name__}: {str(e)[:120]}", type(e).__name__, "rows")
+    if report is None:
+        if kind in ("list", "all"):
+            want = ("rows", exp_b)
+        elif kind == "all-abandoned":
+            want = ("first", exp_b[0] if exp_b else None)
+        else:
+            want = ("none",) if not exp_b else (("row", exp_b[0]) if len(exp_b) == 1 else ("ValueError",))
+        if got_a != exp_a:
+            report = ("interleaved-iterator-rows", f"all() advanced {q['k']} rows, then {kind}() on the same method and "
+                      "connection: the iterator did not yield exactly its own rows",
+                      [r[0] for r in got_a], [r[0] for r in exp_a])
+        elif inner != want:
+            report = ("interleaved-inner-call", f"{kind}() called while an all() iterator of the same method is open",
+                      list(inner), list(want))
+    if count:
+        acc.case(nontrivial=0 < q["k"] < len(exp_a), outcome="interleave:ok" if report is None else "violation:" + report[0],
+                 features=["interleave:inner-" + q["inner"], "conn:" + case["conn"],
+                           "interleave:outer-" + ("untouched" if q["k"] == 0 else
+                                                  ("exhausted" if q["k"] == len(exp_a) else "partly-consumed"))])
+    if report is not None:
+        acc.violation("C15:" + report[0], case, report[1], report[2], report[3])
+    return report
+
+
+def _interleave_block(acc, k, step):
+    for a in REPS[k::step]:
+        na = bin(a.masks[0]).count("1")
+        for b in REPS:
+            for adv in range(na + 1):
+                for inner in INNER_KINDS:
+                    run_interleave({"interleave": {"a": a.item("a3"), "b": b.item("a3"), "k": adv, "inner": inner},
+                                    "conn": "q" if (adv + len(inner)) % 2 else "p"}, acc)
+        if acc.expired():
+            return
+
+
 def replay(case, acc):
+    if "objects" in case:
+        run_objects(case, acc)
+        return
+    if "interleave" in case:
+        run_interleave(case, acc)
+        return
     if "illtyped" in case:
         _illtyped(acc)
         return
